@@ -161,7 +161,7 @@ class _Piped(io.StringIO):
         return False
 
 
-def run_main(case, stdin_rhs=False):
+def run_main(case, stdin_rhs=False, stdin_only=False):
     """yaml-merge in-process; with stdin_rhs the right-hand stream arrives on STDIN (`-`) instead of in a file.
     -> ("ok", [docs]) | ("error", "exit N", stderr) | ("crash", info)"""
     from yamlpath.commands import yaml_merge
@@ -178,6 +178,9 @@ def run_main(case, stdin_rhs=False):
         files.append(p)
     if stdin_rhs:
         files.append("-")
+    if stdin_only:
+        # no YAML_FILE at all: the (single) stream is piped in and `-` is inferred
+        files, stdin_rhs, rd = [], True, ld
     argv = ["yaml-merge", "-D", "yaml", "-M", case["mode"]] + ([] if stdin_rhs else ["-S"])
     for o, flag in zip(OPTS, ("-H", "-A", "-O", "-E")):
         if case["args"].get(o):
@@ -263,7 +266,8 @@ def judge(case, channel="driver", real=None):
     ld, rd = case_docs(case)
     mode = case["mode"]
     if real is None:
-        real = {"driver": run_driver, "docs": run_merge_docs, "main": run_main, "main-stdin": lambda c: run_main(c, stdin_rhs=True)}[channel](case)
+        real = {"driver": run_driver, "docs": run_merge_docs, "main": run_main, "main-stdin": lambda c: run_main(c, stdin_rhs=True),
+                "main-stdin-only": lambda c: run_main(c, stdin_only=True)}[channel](case)
     cfg = S.SpecConfig.from_sources(cli=case["args"])
 
     def merge(l, r, c, trace=None):
@@ -404,7 +408,7 @@ def work(chunk, seed, policies, channels_every):
                 if rv:
                     r = eval_case(col, case, "driver")
                 if channels_every and (n % channels_every == 0 or not rv):
-                    for ch in ("docs", "main", "main-stdin") if rv else ("main",):
+                    for ch in ("docs", "main", "main-stdin") if rv else ("main", "main-stdin-only"):
                         r2 = eval_case(col, case, ch, suppress=r is not None and r["status"] not in ("pass", "error-path"))
                         # the channels must agree with each other on success paths
                         if r is not None and r["real"][0] == "ok" and r2["real"][0] == "ok" and not S.veq(r["real"][1], r2["real"][1]) \
@@ -421,6 +425,66 @@ def _cleanup():
         os.rmdir(os.path.dirname(TMP_ROOT))
     except OSError:
         pass
+
+
+# files that hold NO document at all (empty, comments only): a stream of length 0
+NO_DOC_TEXTS = {"empty-file": "", "comment-only-file": "# nothing here\n"}
+
+
+def run_main_texts(texts, mode):
+    """yaml-merge in-process on literal file contents.  -> ("ok", stdout) | ("error", "exit N", stderr) | ("crash", info)"""
+    from yamlpath.commands import yaml_merge
+    from yamlpath.common import parsers as parsers_mod
+    d = _tmpdir()
+    files = []
+    for i, t in enumerate(texts):
+        p = os.path.join(d, "n%d.yaml" % i)
+        with open(p, "w") as fh:
+            fh.write(t)
+        files.append(p)
+    out, err = io.StringIO(), io.StringIO()
+    old = sys.argv, sys.stdin, parsers_mod.stdin
+    code = None
+    try:
+        sys.argv, sys.stdin = ["yaml-merge", "-S", "-D", "yaml", "-M", mode] + files, _NoTTY("")
+        parsers_mod.stdin = sys.stdin
+        with contextlib.redirect_stdout(out), contextlib.redirect_stderr(err):
+            try:
+                yaml_merge.main()
+            except SystemExit as ex:
+                code = ex.code
+    except (KeyboardInterrupt, MemoryError):
+        raise
+    except BaseException as ex:
+        return _crash(ex)
+    finally:
+        sys.argv, sys.stdin, parsers_mod.stdin = old
+    if code not in (0, None):
+        return ("error", "exit %s" % code, err.getvalue()[:300])
+    return ("ok", out.getvalue())
+
+
+def check_no_document_files(col):
+    """Inputs that hold no document: whatever yaml-merge makes of them, it is not a traceback; next to a real document they
+    change nothing."""
+    real = "a: 1\n"
+    for name, text in NO_DOC_TEXTS.items():
+        for mode in MODES:
+            for shape, texts in (("alone", [text]), ("twice", [text, text]), ("before-a-document", [text, real]),
+                                 ("after-a-document", [real, text])):
+                inp = {"check": "no-document-file", "kind": name, "shape": shape, "mode": mode, "texts": texts}
+                r = run_main_texts(texts, mode)
+                col.case(("no-doc", name, shape, mode, r[0]))
+                if r[0] == "crash":
+                    col.witness("%s/crash/%s(%s)@%s/via-main-no-document-file" % (PROP, r[1]["type"], r[1]["detail"], r[1]["at"]),
+                                "%s escapes yaml-merge when its input files hold no document (%s line %s)" % (r[1]["type"], r[1]["at"], r[1]["line"]),
+                                inp, observed=r[1], expected="a result or a reported error, not a traceback")
+                elif shape.endswith("a-document"):
+                    want = run_main_texts([real], mode)
+                    if r != want:
+                        col.witness("%s/no-document-file-changes-the-result/%s" % (PROP, shape),
+                                    "a file without any document next to a real one changes what yaml-merge prints", inp,
+                                    observed=list(r), expected=list(want))
 
 
 def run(tier="quick", seed=0, jobs=None):
@@ -456,6 +520,7 @@ def run(tier="quick", seed=0, jobs=None):
                 col.merge(r)
                 cpu += r["cpu_s"]
             info.append({"stage": name, "stream_pairs": len(items), "cases": col.evaluations - before, "cpu_s": round(cpu, 1)})
+        check_no_document_files(col)
     finally:
         _cleanup()
     bounds = {
@@ -464,7 +529,9 @@ def run(tier="quick", seed=0, jobs=None):
                    "rich = {a: [TAG, dup], h: {TAG: 1, k: TAG}, s: !!set {TAG, m}, r: [{a: TAG}], last: TAG} (lengths 1..3)",
         "modes": list(MODES), "policies": POLICIES,
         "channels": "driver functions on Merger lists (all cases with a right stream); merge_docs with the right stream in a file and "
-                    "yaml_merge.main() in-process -- right stream in a file, and piped through STDIN (`-`) -- on a deterministic subset (and all single-file cases)",
+                    "yaml_merge.main() in-process -- right stream in a file, and piped through STDIN (`-`) -- on a deterministic subset (and all single-file cases, "
+                    "each also with the one stream piped in and no YAML_FILE argument); files that hold no document (empty, comments only) alone, twice, "
+                    "before and after a real document, per mode",
         "stages": info, "tier": tier, "seed": seed,
     }
     rule = ("on success paths the list [plain(m.data) for m in lhs_mergers] after the driver (and the stream yaml-merge prints) equals "
@@ -477,6 +544,12 @@ def run(tier="quick", seed=0, jobs=None):
 
 def replay(inp):
     try:
+        if inp.get("check") == "no-document-file":
+            r = run_main_texts(inp["texts"], inp["mode"])
+            if r[0] == "crash":
+                return {"key": "%s/crash/%s(%s)@%s/via-main-no-document-file" % (PROP, r[1]["type"], r[1]["detail"], r[1]["at"]),
+                        "what": "traceback", "inputs": [inp], "observed": r[1], "expected": "no traceback", "count": 1}
+            return None
         ch = inp.get("channel", "driver")
         res = judge(inp, ch)
         if res["status"] in ("pass", "error-path", "from-code"):
